@@ -61,8 +61,9 @@ CHECK_DEADLOCK FALSE
 '''
 
 
-def make_trace(tid, pi, lines, amb=False, overlap=False, poolmissing=False):
-    return {'id': tid, 'pi': pi, 'amb': bool(amb), 'overlap': bool(overlap), 'poolmissing': bool(poolmissing),
+def make_trace(tid, pi, lines, amb=False, overlap=False, poolmissing=False, faulty=False):
+    return {'id': tid, 'pi': pi, 'amb': bool(amb) or bool(faulty), 'overlap': bool(overlap), 'poolmissing': bool(poolmissing),
+            'faulty': bool(faulty),
             'lines': to_json(lines)}
 
 
